@@ -59,8 +59,10 @@ def do_fit(family, which, reuse=None):
         m = (reuse if reuse is not None else em.BillingModel()).fit(em.BillingBaselineData.from_series(ds.billing_reads(fr["observed"]), fr["temperature"], is_electricity_data=True))
         rep = em.BillingReportingData.from_series(None, ds.daily_frame(start="2022-01-01", days=120, tz=ZONE, wseed=3, seed=3)["temperature"],
                                                   is_electricity_data=True)
-    elif family in ("hourly", "hourly_solar", "hourly_seed0", "hourly_late", "hourly_adaptive"):
+    elif family in ("hourly", "hourly_solar", "hourly_seed0", "hourly_late", "hourly_adaptive", "hourly_silhouette"):
         hs_ = {"seed": 0 if family == "hourly_seed0" else 7}
+        if family == "hourly_silhouette":
+            hs_["temporal_cluster"] = {"score_metric": "silhouette"}
         if family == "hourly_adaptive":
             hs_["elasticnet"] = {"adaptive_weights": True, "adaptive_weight_max_iter": 5, "adaptive_weight_tol": 1e-4}
         m = reuse if reuse is not None else em.HourlyModel(settings=hs_)
